@@ -57,6 +57,9 @@ type Report struct {
 	Stats    map[string]int
 	Start    time.Time
 	alias    map[string]string
+	// Filter, when set, drops obligations it rejects (used while a rule body
+	// shared with another property runs, to keep only the relevant part).
+	Filter func(Obligation) bool
 }
 
 // Alias makes obligations recorded under rule `from` count under rule `to`
@@ -86,6 +89,9 @@ func (r *Report) Rule(id, engine string, floor int, doc string) {
 }
 
 func (r *Report) add(o Obligation) {
+	if r.Filter != nil && !r.Filter(o) {
+		return
+	}
 	if a, ok := r.alias[o.Rule]; ok {
 		o.Rule = a
 	}
